@@ -516,7 +516,7 @@ def main_check(pid, tier, seed):
             if st.get('exhaustive'):
                 exhaustive_modes.append(r['job']['mode'])
             for s in st['samples']:
-                if len(samples) < 8 and (len(samples) < 2 or r['job'].get('sub', 0) == 0):
+                if len(samples) < 10 and (len(samples) < 2 or r['job'].get('sub', 0) == 0) and not any(x['case'] == s for x in samples):
                     samples.append(dict(mode=r['job']['mode'], case=s))
             notes += st['notes']
             fail_files += st['fail_files']
